@@ -100,10 +100,10 @@ pub struct SoutCase {
 /// one entry of the exact order of database critical sections and user transactions
 #[derive(Clone, Debug, PartialEq)]
 pub enum TL {
-    /// the session is about to take the database lock at this site
-    Lock(&'static str),
+    /// the session is about to take the database lock at this site (site, world-wide order)
+    Lock(&'static str, u64),
     /// a user transaction applied this update (at_lock = injected at a lock point)
-    Update { op: UpdateOp, info: UpdateInfo, at_lock: bool, t_ms: u64 },
+    Update { op: UpdateOp, info: UpdateInfo, at_lock: bool, t_ms: u64, order: u64 },
 }
 
 #[derive(Clone, Debug)]
@@ -126,6 +126,10 @@ pub struct Step {
     pub received: Vec<RxFragment>,
     /// user callbacks made during this step, in order
     pub callbacks: Vec<(u64, Cb)>,
+    /// world-wide sequence numbers of `callbacks` (comparable with `RxFragment::order`)
+    pub callback_orders: Vec<u64>,
+    /// sequence number taken when the op's fragment was handed to the wire
+    pub sent_order: u64,
     /// timeline entries added during this step
     pub timeline: Vec<TL>,
     /// link-level frames (non-data) written by the outstation during this step
@@ -133,6 +137,8 @@ pub struct Step {
     /// a new connection was established / the connection was cut in this step
     pub connected: bool,
     pub disconnected: bool,
+    /// the connection was up when the op was executed (a fragment sent while down never arrives)
+    pub link_up: bool,
 }
 
 pub trait Oracle {
@@ -204,8 +210,8 @@ pub async fn drive(sim: &Sim, case: &SoutCase, oracle: &mut dyn Oracle) -> RunSu
                 return;
             }
             let mut q = lockq.lock().unwrap();
-            q.timeline.push(TL::Lock(site));
-            // apply every queued update whose turn has come
+            // apply every queued update whose turn has come (they run before the session takes the lock,
+            // so they precede the Lock entry in the timeline)
             let mut i = 0;
             while i < q.pending.len() {
                 let matches = q.pending[i].0.is_empty() || site.contains(q.pending[i].0.as_str());
@@ -220,11 +226,13 @@ pub async fn drive(sim: &Sim, case: &SoutCase, oracle: &mut dyn Oracle) -> RunSu
                                 core.log(format!("  user transaction at lock point '{}': {:?} -> {:?}", site, op, info));
                             }
                         }
+                        let order = crate::verif::kernel::current().map(|c| c.next_order()).unwrap_or(0);
                         q.timeline.push(TL::Update {
                             op,
                             info,
                             at_lock: true,
                             t_ms: t,
+                            order,
                         });
                         continue;
                     } else {
@@ -233,6 +241,8 @@ pub async fn drive(sim: &Sim, case: &SoutCase, oracle: &mut dyn Oracle) -> RunSu
                 }
                 i += 1;
             }
+            let order = crate::verif::kernel::current().map(|c| c.next_order()).unwrap_or(0);
+            q.timeline.push(TL::Lock(site, order));
         }));
     }
 
@@ -264,6 +274,8 @@ pub async fn drive(sim: &Sim, case: &SoutCase, oracle: &mut dyn Oracle) -> RunSu
 
     for (i, op) in ops.iter().enumerate() {
         let t_start = sim.now_ms();
+        let link_up = node.connected;
+        let sent_order = sim.core().next_order();
         let mut sent = None;
         let mut connected = i == 0;
         let mut disconnected = false;
@@ -278,6 +290,7 @@ pub async fn drive(sim: &Sim, case: &SoutCase, oracle: &mut dyn Oracle) -> RunSu
                     info,
                     at_lock: false,
                     t_ms: sim.now_ms(),
+                    order: sim.core().next_order(),
                 });
             }
         }
@@ -290,6 +303,7 @@ pub async fn drive(sim: &Sim, case: &SoutCase, oracle: &mut dyn Oracle) -> RunSu
                     info,
                     at_lock: false,
                     t_ms: sim.now_ms(),
+                    order: sim.core().next_order(),
                 });
             }
             Op::UpdateAtLock { site, skip, update } => {
@@ -456,6 +470,7 @@ pub async fn drive(sim: &Sim, case: &SoutCase, oracle: &mut dyn Oracle) -> RunSu
             sim.log(|| format!("outstation -> peer fragment at {} ms: {}", r.t_ms, io::hex(&r.bytes)));
         }
         let callbacks = node.callbacks_since(cb_seen);
+        let callback_orders = node.callback_orders_since(cb_seen);
         cb_seen += callbacks.len();
         let link_frames = peer.link_frames[link_seen..].to_vec();
         link_seen = peer.link_frames.len();
@@ -468,10 +483,13 @@ pub async fn drive(sim: &Sim, case: &SoutCase, oracle: &mut dyn Oracle) -> RunSu
             sent,
             received,
             callbacks,
+            callback_orders,
+            sent_order,
             timeline,
             link_frames,
             connected,
             disconnected,
+            link_up,
         };
         world.steps_done = i + 1;
         if let Some(v) = oracle.step(&world, &step) {
